@@ -119,7 +119,7 @@ PROOFS = [
     # extract_back(bytes, buf) and memcpy_iov: cvc5 at 1024 elements did not finish; cadical does at 16 (quick) / 64 (thorough) elements: see below
     Proof('extract_front_continuous', 'iov.c', 'h_extract_front_continuous', kind='L', min_obligations=10, **CV),
     Proof('extract_back_continuous', 'iov.c', 'h_extract_back_continuous', kind='L', min_obligations=10, **CV),
-    # slice: contract written in iov.c.in (two loops); cvc5 did not finish in 15 min -> not listed (see DESIGN §6 C14)
+    # slice: cvc5 at 1024 elements did not finish in 15 min; cadical at 16 elements does (proof 'slice' below)
     # bounded stand-ins (labelled bounded, never counted as proved) for the three contracts no back end discharges unbounded
     Proof('bounded/slice_n2', 'iov.c', 'h_slice', kind='B', backend='cadical', defines=['NMAX=2', 'BOUNDED_LOOPS'], unwind=5, bound='at most 2 source elements and 2 output slots, any lengths / offset / count', timeout=900, checks=CHECKS),
     Proof('bounded/extract_back_copy_n2', 'iov.c', 'h_extract_back_copy', kind='B', backend='cadical', defines=['NMAX=2', 'BOUNDED_LOOPS'], unwind=5, bound='at most 2 elements, any lengths and byte count', timeout=1800, tier='thorough', checks=CHECKS),
@@ -131,6 +131,8 @@ PROOFS = [
           bound='at most 64 + 64 elements (input-size bound), any lengths'),
     Proof('extract_back/copy', 'iov.c', 'h_extract_back_copy', kind='L', min_obligations=10, backend='cadical', defines=['NMAX=16'], timeout=2400, checks=CHECKS,
           bound='at most 16 elements (input-size bound; the loop is closed by its invariant), any lengths and byte count'),
+    Proof('slice', 'iov.c', 'h_slice', kind='L', min_obligations=10, backend='cadical', defines=['NMAX=16'], timeout=2400, checks=CHECKS,
+          bound='at most 16 source elements and 16 output slots (input-size bound; both loops are closed by their invariants), any lengths / offset / count'),
     Proof('iov_iterator/ctor', 'iov.c', 'h_it_ctor', kind='L', min_obligations=4, **CV),
     Proof('lemma/pre_mono', 'iov.c', 'lemma_pre_mono', kind='L', min_obligations=3, **CV),
 ]
